@@ -319,7 +319,7 @@ theorem foldl_inv {σ α : Type} (P : σ → Prop) (f : σ → α → σ) : ∀ 
     exact ih _ (hstep init h0 a List.mem_cons_self)
       (fun s hs b hb => hstep s hs b (List.mem_cons_of_mem _ hb))
 
-theorem updGroup_inv (P : List SV × List St → Prop) (g : Groups) (key : List SV) (f : List St → List St)
+theorem updGroup_inv {κ : Type} [BEq κ] (P : κ × List St → Prop) (g : GroupsK κ) (key : κ) (f : List St → List St)
     (fresh : List St) (hg : ∀ e ∈ g, P e) (hf : ∀ e, P e → P (e.1, f e.2)) (hnew : P (key, f fresh)) :
     ∀ e ∈ updGroup g key f fresh, P e := by
   unfold updGroup
@@ -359,17 +359,28 @@ theorem aggInput_widths (d : DF) (keys : List String) (aggs : List AggSpec) (row
   obtain ⟨r, _, rfl⟩ := List.mem_map.mp hkv
   simp [hk, ha]
 
-theorem aggregateSpec_widths (n K : Nat) (rows : List (List SV × List SV))
-    (h : ∀ kv ∈ rows, kv.1.length = K ∧ kv.2.length = n) : ∀ e ∈ aggregateSpec n rows, GW K n e := by
+/-- generic in the key type: every group key satisfies `Q` (e.g. has the width of the row keys) and there are
+`n` accumulators -/
+theorem aggregateSpec_inv {κ : Type} [BEq κ] (Q : κ → Prop) (n : Nat) (rows : List (κ × List SV))
+    (h : ∀ kv ∈ rows, Q kv.1 ∧ kv.2.length = n) :
+    ∀ e ∈ aggregateSpec n rows, Q e.1 ∧ e.2.length = n := by
   unfold aggregateSpec
-  refine foldl_inv (fun g : Groups => ∀ e ∈ g, GW K n e) _ rows [] (fun e he => by cases he) ?_
+  refine foldl_inv (fun g : GroupsK κ => ∀ e ∈ g, Q e.1 ∧ e.2.length = n) _ rows [] (fun e he => by cases he) ?_
   intro g hg r hr
   obtain ⟨h1, h2⟩ := h r hr
   unfold addRow
-  refine updGroup_inv (GW K n) g r.1 _ _ hg ?_ ?_
+  refine updGroup_inv (fun e => Q e.1 ∧ e.2.length = n) g r.1 _ _ hg ?_ ?_
   · intro e he
     exact ⟨he.1, by simp [List.length_zip, he.2, h2]⟩
   · exact ⟨h1, by simp [List.length_zip, h2]⟩
+
+theorem aggregateSpec_widths (n K : Nat) (rows : List (List SV × List SV))
+    (h : ∀ kv ∈ rows, kv.1.length = K ∧ kv.2.length = n) : ∀ e ∈ aggregateSpec n rows, GW K n e :=
+  aggregateSpec_inv (fun k : List SV => k.length = K) n rows h
+
+theorem aggregateSub_widths (n K : Nat) (rows : List (List (Option SV) × List SV))
+    (h : ∀ kv ∈ rows, kv.1.length = K ∧ kv.2.length = n) : ∀ e ∈ aggregateSpec n rows, SW K n e :=
+  aggregateSpec_inv (fun k : List (Option SV) => k.length = K) n rows h
 
 theorem rollupKeys_width (key : List SV) : ∀ sk ∈ rollupKeys key, sk.length = key.length := by
   intro sk hsk
@@ -382,38 +393,21 @@ theorem rollupKeys_width (key : List SV) : ∀ sk ∈ rollupKeys key, sk.length 
 theorem cubeKeys_width (key : List SV) : ∀ sk ∈ cubeKeys key, sk.length = key.length :=
   fun sk hsk => (cubeKeys_sound key sk hsk).1
 
-theorem addSubtotals_widths (keysOf : List SV → List (List (Option SV)))
-    (hk : ∀ key, ∀ sk ∈ keysOf key, sk.length = key.length) (K n : Nat) (g : Groups)
-    (hg : ∀ e ∈ g, GW K n e) : ∀ x ∈ addSubtotals keysOf g, SW K n x := by
-  unfold addSubtotals
-  refine foldl_inv (fun acc : SubGroups => ∀ x ∈ acc, SW K n x) _ g [] (fun e he => by cases he) ?_
-  intro acc hacc e he
-  obtain ⟨h1, h2⟩ := hg e he
-  refine foldl_inv (fun acc : SubGroups => ∀ x ∈ acc, SW K n x) _ (keysOf e.1) acc hacc ?_
-  intro acc hacc sk hsk
-  split
-  · intro x hx
-    obtain ⟨y, hy, rfl⟩ := List.mem_map.mp hx
-    split
-    · exact ⟨(hacc y hy).1, by simp [List.length_zip, (hacc y hy).2, h2]⟩
-    · exact hacc y hy
-  · intro x hx
-    rcases List.mem_append.mp hx with h | h
-    · exact hacc x h
-    · rw [List.mem_singleton] at h
-      subst h
-      exact ⟨by rw [hk e.1 sk hsk]; exact h1, h2⟩
-
-theorem subtotal_widths (mode : GroupMode) (K n : Nat) (g : Groups) (hg : ∀ e ∈ g, GW K n e) :
-    ∀ x ∈ subtotal mode g, SW K n x := by
+theorem keysOfMode_width (mode : GroupMode) (key : List SV) : ∀ sk ∈ keysOfMode mode key, sk.length = key.length := by
   cases mode with
-  | groupBy =>
-    intro x hx
-    simp only [subtotal] at hx
-    obtain ⟨e, he, rfl⟩ := List.mem_map.mp hx
-    exact ⟨by simpa using (hg e he).1, (hg e he).2⟩
-  | rollup => exact addSubtotals_widths rollupKeys rollupKeys_width K n g hg
-  | cube => exact addSubtotals_widths cubeKeys cubeKeys_width K n g hg
+  | groupBy => intro sk hsk; simp only [keysOfMode, groupByKeys, List.mem_singleton] at hsk; subst hsk; simp
+  | rollup => exact rollupKeys_width key
+  | cube => exact cubeKeys_width key
+
+theorem expand_widths (keysOf : List SV → List (List (Option SV)))
+    (hk : ∀ key, ∀ sk ∈ keysOf key, sk.length = key.length) (K n : Nat) (rows : List (List SV × List SV))
+    (h : ∀ kv ∈ rows, kv.1.length = K ∧ kv.2.length = n) :
+    ∀ kv ∈ expand keysOf rows, kv.1.length = K ∧ kv.2.length = n := by
+  intro kv hkv
+  unfold expand at hkv
+  obtain ⟨r, hr, hkv⟩ := List.mem_flatMap.mp hkv
+  obtain ⟨sk, hsk, rfl⟩ := List.mem_map.mp hkv
+  exact ⟨(hk r.1 sk hsk).trans (h r hr).1, (h r hr).2⟩
 
 theorem projectAll_length (aggs : List AggSpec) (sts : List St) :
     (projectAll aggs sts).length = min aggs.length sts.length := by
@@ -428,8 +422,9 @@ theorem agg_consistent (d : DF) (mode : GroupMode) (keys : List String) (aggs : 
   obtain ⟨rows, hrows, hr⟩ := bind_ok hr
   cases pure_ok hr
   obtain ⟨x, hx, rfl⟩ := List.mem_map.mp hmem
-  obtain ⟨h1, h2⟩ := subtotal_widths mode keys.length aggs.length _
-    (aggregateSpec_widths aggs.length keys.length rows (aggInput_widths d keys aggs rows hrows)) x hx
+  obtain ⟨h1, h2⟩ := aggregateSub_widths aggs.length keys.length _
+    (expand_widths (keysOfMode mode) (keysOfMode_width mode) keys.length aggs.length rows
+      (aggInput_widths d keys aggs rows hrows)) x hx
   simp [showKey, projectAll_length, aggNames, h1, h2]
 
 /-! ### pivot -/
